@@ -50,7 +50,7 @@ def scenarios(thorough):
 def run(chk, replay=None):
     scns = scenarios(chk.thorough)
     chan_model.model_check(chk, "C05", scns)
-    n_pct, dfs = (1500, 4000) if chk.thorough else (150, 700)
+    n_pct, dfs = (700, 2400) if chk.thorough else (150, 700)
     cc.explore_and_validate(chk, "C05", scns, n_pct, dfs, bound=2, label="wakeup")
     chk.rule = ("cases = schedules of the real server with the poll timeout infinite, over %d scenarios (response sizes around send_bytes / watermark / SO_SNDBUF, "
                 "slow readers, select and poll); evaluations = distinct traces judged by TLC; non-trivial = >= 2 requests or a close" % len(scns))
